@@ -166,6 +166,9 @@ def parse_operand(s):
         return ("place", p)
     if s.startswith("const "):
         return ("const", s[6:].strip())
+    if re.match(r"^[A-Za-z_][\w:<> ]*::\w+$", s):
+        # a function item used as a value (e.g. `char::is_alphanumeric` passed as a pattern)
+        return ("const", s)
     raise Unsupported("operand %r" % s)
 
 
@@ -265,6 +268,12 @@ class Executor:
                 v = self.read_place(st, p[1])
                 return v if isinstance(v, Ptr) else v
             return self.read_place(st, p)
+        m = re.match(r"^Not\((.*)\)$", r)
+        if m:
+            v = self.operand(st, parse_operand(m.group(1)))
+            if z3.is_bool(v):
+                return z3.Not(v)
+            raise Unsupported("Not of %r" % (v,))
         if r.startswith("discriminant("):
             p, _ = parse_place(r[len("discriminant("):-1])
             v = self.read_place(st, p)
